@@ -1,6 +1,6 @@
 """Per-property registry for bin/vcheck: what to build, which engine runs to start, evidence level."""
 
-MC = ["mc/world.c", "mc/wire.c", "mc/report.c", "mc/e1.c", "mc/sigma.c"]
+MC = ["mc/world.c", "mc/wire.c", "mc/report.c", "mc/e1.c", "mc/e3.c", "mc/sigma.c", "mc/oracles.c"]
 MTUS_Q = [576, 1500]
 MTUS_T = [576, 577, 1500, 9216]
 
@@ -18,7 +18,36 @@ def c05_runs(tier):
     return runs
 
 
+def proto_runs(mode):
+    def f(tier):
+        mt = MTUS_T if tier == "thorough" else MTUS_Q
+        extra = []
+        if mode == "c09" and tier == "quick":
+            extra = ["--a", "1"]
+        return [("main", ["--mode", mode] + extra + c) for c in cfgs(mt)]
+    return f
+
+
+PROTO = {"main": {"sources": MC + ["checks/proto.c"], "modes": ["c02", "c03", "c09"]}}
+
 PROPS = {
+    "C02": {
+        "builds": PROTO, "runs": proto_runs("c02"), "level": "model_checking",
+        "technique": "explicit-state BFS to fixpoint over the real parseFrame with an independent wire decoder as oracle, executed twice with different fresh-memory fill patterns and compared transition by transition",
+        "assumptions": ["frames of the alphabet are complete (received length >= fixed part of their opcode) and the receive buffer starts zeroed; runt frames are C01's subject",
+                        "visited set stores 128-bit hashes of the canonical state (hash compaction)"],
+    },
+    "C03": {
+        "builds": PROTO, "runs": proto_runs("c03"), "level": "model_checking",
+        "technique": "explicit-state BFS to fixpoint; every Discover variant tried in every reachable state; Hello decoded by an independent decoder and compared with the Discover",
+        "assumptions": ["acceptance is decided by the C05 reference arbiter; nothing is demanded while it is 'unconstrained'"],
+    },
+    "C09": {
+        "builds": PROTO, "runs": proto_runs("c09"), "level": "model_checking",
+        "technique": "product (bisimulation) exploration: closure of reachable states, Reset applied in each, then closure of (post-Reset, fresh) pairs under all continuations with byte-equal traces",
+        "assumptions": ["trace equality is demanded, not state equality (stale unobservable fields are allowed)",
+                        "quick tier uses the 18-event alphabet for prefix and continuation, thorough the full protocol alphabet"],
+    },
     "C05": {
         "builds": {"main": {"sources": MC + ["checks/c05.c"], "modes": ["closure", "sweep"]}},
         "runs": c05_runs,
